@@ -40,11 +40,11 @@ open Sarpy Sarpy.Spec Sarpy.Spec.L Sarpy.Spec.Layout Sarpy.Proofs.PyLoops
 
 theorem gen_seg_cond (rows cols lim : Int) (acc : List Box) (off : Int) :
     Gen.L.default_image_segmentation_loop1_cond rows cols lim acc off = .ok (segCond rows (acc, off)) := by
-  simp [Gen.L.default_image_segmentation_loop1_cond, segCond, pure, Except.pure]
+  simp [Gen.L.default_image_segmentation_loop1_cond, segCond, pure, Except.pure] <;> omega
 
 theorem gen_seg_body (rows cols lim : Int) (acc : List Box) (off : Int) :
     Gen.L.default_image_segmentation_loop1_body rows cols lim acc off = .ok (segStep rows cols lim (acc, off)) := by
-  simp [Gen.L.default_image_segmentation_loop1_body, segStep, pure, Except.pure]
+  simp [Gen.L.default_image_segmentation_loop1_body, segStep, pure, Except.pure] <;> omega
 
 /-- Spec level: the pure loop is Spec.Layout.stepTiling -/
 theorem seg_iter (rows cols lim : Int) (hl : 1 ≤ lim) (fuel off : Nat) (acc : List Box) :
@@ -152,7 +152,7 @@ example : Gen.L.default_image_segmentation 3 7 0 = .error "OutOfFuel" := by deci
 
 theorem gen_cbb_inner_body (cbs r0 r1 c : Int) (acc : List Box) :
     Gen.L.construct_block_bounds_loop1_body_loop1_body cbs r0 r1 c acc = .ok (colStep cbs r0 r1 (c, acc)) := by
-  simp [Gen.L.construct_block_bounds_loop1_body_loop1_body, colStep, pure, Except.pure]
+  simp [Gen.L.construct_block_bounds_loop1_body_loop1_body, colStep, pure, Except.pure] <;> omega
 
 theorem gen_cbb_outer_body (nbpr cbs rbs r : Int) (acc : List Box) :
     Gen.L.construct_block_bounds_loop1_body nbpr cbs rbs r acc = .ok (rowStep nbpr.toNat rbs cbs (r, acc)) := by
